@@ -12,7 +12,7 @@ CHECKS = {
    text="Generated MRO programs are run by the real mrp with a universal probe stage; every recorded stage execution's arguments, every join's chunk_defs/chunk_outs and the top-level outputs (snapshotted just before post-processing) must equal the reference evaluation of the bindings over the outputs the producers actually recorded. Exploration is the right level: the claim quantifies over all programs x inputs x schedules, which can only be sampled; the oracle is local (one witness per wrong value) and exact.",
    ref="3 C01"),
  "C02": dict(level="exploration", tech="runtime monitoring: interval-order checker over monotonic start/end events with injected delays at scheduler hook points",
-   text="Same runs, with slow producers and PRNG delays at refresh/step/expandForks/jobDone hooks: for every dataflow-derived dependency (data, disabling condition, map source, preflight) and for split<chunks<join inside a fork the consumer's start must follow the producer's end on the shared monotonic clock. Sampled schedules only.",
+   text="Same runs, with slow producers and PRNG delays at refresh/step/expandForks/jobDone hooks: for every dataflow-derived dependency (data, disabling condition, map source, preflight) and for split<chunks<join inside a fork the consumer's start must follow the producer's end on the shared monotonic clock. Sampled schedules only. A sixth of the runs is interrupted and restarted (mrp stopped when the first fork of a run-time sized map call has finished while its siblings are slow): the ordering must also hold for what the restarted mrp starts.",
    ref="3 C02"),
  "C03": dict(level="exploration", tech="runtime monitoring: exactly-once / expected-set checker over recorded job executions",
    text="The multiset of executed (call, fork, phase, chunk) must equal the reference model's set: one recorded fork per expected invocation, each job started once, chunk jobs == chunks the split defined, nothing for disabled calls; boundary collection sizes (0,1,9,10,11).",
@@ -21,16 +21,16 @@ CHECKS = {
    text="File-passing programs under rolling/post/strict VDR: every consumer probe stats and reads every path named in its own arguments when it starts (content tokens identify the producer's file); at completion every top-level file output and retained file must carry the producer's token. Sampled programs/schedules.",
    ref="3 C04"),
  "C05": dict(level="fault_enumeration", tech="fault injection: crash (SIGKILL/SIGTERM/SIGINT) at enumerated hook points and job-side points, restart, compare with uninterrupted baseline",
-   text="The baseline run of each program yields the ordered list of mrp hook hits between filesystem effects; crash specs (point, occurrence, signal) are enumerated (all points for small programs in the thorough tier, stratified by point class otherwise), plus job-side kills of mrp and double crashes. After restart(s): exit 0, outputs and outs/ tokens equal the baseline, no job with a completion marker older than the interruption starts again, no _lock after a handled signal. The job monitor (mrjob) also signals mrp from its own hook points just before / just after it records a job's completion, so that the monitor itself is signalled by mrp's death inside that window.",
+   text="The baseline run of each program yields the ordered list of mrp hook hits between filesystem effects; crash specs (point, occurrence, signal) are enumerated (all points for small programs in the thorough tier, stratified by point class otherwise), plus job-side kills of mrp and double crashes. After restart(s): exit 0, outputs and outs/ tokens equal the baseline, no job with a completion marker older than the interruption starts again, no _lock after a handled signal. The job monitor (mrjob) also signals mrp from its own hook points just before / just after it records a job's completion, so that the monitor itself is signalled by mrp's death inside that window. Every hook hit of the post-processing window is a crash point; every fourth program runs with --zip (crash points inside the metadata archiving); directed interruptions when the first fork of a run-time map call has ended; half of the programs take negative float / large integer invocation arguments.",
    ref="3 C05"),
  "C06": dict(level="fault_enumeration", tech="fault injection: every job x failure manifestation via the probe's behaviour file, then fault removal and restart",
-   text="Every job of a program as failure site x manifestation (error pipe, ASSERT, exit codes, SIGSEGV/SIGKILL of stage or mrjob, truncated/missing/ill-typed outs, bad _stage_defs), one-shot or repeated, autoretry 0|2: mrp must fail without claiming success, name the stage, start no dependent job, and after fault removal complete with the baseline result without redoing completed work. Preflight calls get directed faults (everything else in the pipeline, nested at any depth, depends on them); a fraction of the stages run through the real Python adapter with Python-only failure modes.",
+   text="Every job of a program as failure site x manifestation (error pipe, ASSERT, exit codes, SIGSEGV/SIGKILL of stage or mrjob, truncated/missing/ill-typed outs, bad _stage_defs), one-shot or repeated, autoretry 0|2: mrp must fail without claiming success, name the stage, start no dependent job, and after fault removal complete with the baseline result without redoing completed work. Preflight calls get directed faults (everything else in the pipeline, nested at any depth, depends on them); a fraction of the stages run through the real Python adapter with Python-only failure modes. With --autoretry=N the failing job runs at most N+1 times, also when the fault looks transient on every attempt; directed bad outputs of non-last chunks.",
    ref="3 C06"),
  "C13": dict(level="exploration", tech="runtime monitoring: end-state checker of outs/ and the post-processed _outs against a pre-post-processing snapshot",
-   text="Top-level signatures of every container nesting with nulls, never-written files, explicit out names and duplicate references: the outs/ path of every file leaf is re-derived from name/type/outname and must carry the producer's content token; the post-processed _outs must be valid JSON of the same shape with non-file values unchanged. Explicit out names that clash with a sibling's default file name must be rejected before anything runs or else be materialised faithfully.",
+   text="Top-level signatures of every container nesting with nulls, never-written files, explicit out names and duplicate references: the outs/ path of every file leaf is re-derived from name/type/outname and must carry the producer's content token; the post-processed _outs must be valid JSON of the same shape with non-file values unchanged. Explicit out names that clash with a sibling's default file name must be rejected before anything runs or else be materialised faithfully. A sixth of the cases run with --zip (the record is read back from the metadata archive); run-time map keys with control characters, quotes and backslashes.",
    ref="3 C13"),
  "C14": dict(level="exploration", tech="runtime monitoring: removal inventories taken by a hook just before each os.RemoveAll, compared with kill reports and the final tree",
-   text="With VDR on: no executed job's tmp directory, no chunk-level file of a splitting stage and no unretained file of a volatile stage survives; listed paths are gone; per-fork and pipestance report count/size equal the sum of the hook's own lstat inventories; every vanished file is covered by a removal inside the pipestance; a canary beside it is untouched.",
+   text="With VDR on: no executed job's tmp directory, no chunk-level file of a splitting stage and no unretained file of a volatile stage survives; listed paths are gone; per-fork and pipestance report count/size equal the sum of the hook's own lstat inventories; every vanished file is covered by a removal inside the pipestance; a canary beside it is untouched. Every tenth case: interrupted run, top-level pipeline directory moved outside and replaced by a symlink, restart - the files of completed jobs lying there must survive.",
    ref="3 C14"),
 }
 
@@ -49,22 +49,22 @@ CHECKS.update({
    text="Generated multi-file programs with every literal form and optional clause, surface syntax randomised with tracked comments: Format output must re-parse to a structurally equal tree, lose no comment, be a fixed point when all comments precede elements, compile to the same callables/call graph, and the include-expanded rendering must compile standalone to the same.",
    ref="3 C09"),
  "C10": dict(level="exploration", tech="repetition monitor: byte equality of every artefact over R in-process repetitions x P fresh processes, plus paired mrp runs", note=SRC_NOTE,
-   text="Programs with wide map/struct literals, typed-map map calls, retains and multi-error variants: formatted text, include-expanded source, error text, call-graph JSON/GoString and AST JSON must be byte-identical over R repetitions in P processes (an unsorted map traversal survives R*P draws with probability <= 2^-(RP-1)); two mrp runs of one program must give identical listings and per-fork _invocation bytes.",
+   text="Programs with wide map/struct literals, typed-map map calls, retains and multi-error variants: formatted text, include-expanded source, error text, call-graph JSON/GoString and AST JSON must be byte-identical over R repetitions in P processes (an unsorted map traversal survives R*P draws with probability <= 2^-(RP-1)); two mrp runs of one program must give identical listings and per-fork _invocation bytes. Every dataflow skeleton is among the programs; the fork order recorded in _finalstate is compared over four runs of a program whose forks are keyed by run-time map keys.",
    ref="3 C10"),
  "C11": dict(level="exploration", tech="key-space exploration through tag-guarded wrappers around the real fork-name / journal-name / journal-parse code + adversarial-key pipestances", note=FLOW_NOTE,
-   text="Random nestings of map/array dimensions with adversarial keys and boundary lengths: all forks of a call get pairwise distinct directory and journal names and every journal file name routes back to exactly its (fork, chunk, attempt, file); pipestances mapped over adversarial key pools complete without dataflow/exactly-once findings or journal warnings. Lost-but-alive jobs: a leftover of a killed first attempt reports completion under the superseded attempt's journal name while the retry is running; it must be dropped (nothing may consume the job's outputs before the replacing attempt has ended).",
+   text="Random nestings of map/array dimensions with adversarial keys and boundary lengths: all forks of a call get pairwise distinct directory and journal names and every journal file name routes back to exactly its (fork, chunk, attempt, file); pipestances mapped over adversarial key pools complete without dataflow/exactly-once findings or journal warnings. Lost-but-alive jobs: a leftover of a killed first attempt reports completion under the superseded attempt's journal name while the retry is running; it must be dropped (nothing may consume the job's outputs before the replacing attempt has ended). In every pipestance the journal-routing monitor reads the hook trace and requires each processed journal file to carry the name the receiving metadata object's own job writes, and none to be dropped for want of an owner.",
    ref="3 C11"),
  "C12": dict(level="exploration", tech="race-detector build + porcupine linearizability checking of recorded client-boundary histories + sequential differential driver", note="Trusted base: porcupine v1.3.0, the sequential reference models in cmd/vh/check_c12.go, the Go race detector. The real core.ResourceSemaphore / MaxJobsSemaphore / job managers are driven through their exported API.",
-   text="Concurrent random Acquire/Release/Update*/getter histories on the real ResourceSemaphore and MaxJobsSemaphore are recorded at the client boundary and checked against sequential models with porcupine (Unknown = inconclusive); a sequential driver checks FIFO grants, exact getters and no lost wake-up against a reference queue; request normalisation is checked against the configured limits; the check binary is built with -race and reports in the semaphore files are violations.",
+   text="Concurrent random Acquire/Release/Update*/getter histories on the real ResourceSemaphore and MaxJobsSemaphore are recorded at the client boundary and checked against sequential models with porcupine (Unknown = inconclusive); a sequential driver checks FIFO grants, exact getters and no lost wake-up against a reference queue; request normalisation is checked against the configured limits; the check binary is built with -race and reports in the semaphore files are violations. End to end: reservations of jobs with overlapping run intervals never exceed --localcores / --localmem, at most --maxjobs cluster jobs overlap (including slow joins under a saturated limit), every such pipestance completes.",
    ref="3 C12"),
  "C15": dict(level="exploration", tech="labelled-edit differential monitoring of Ast.EquivalentCall and of real mrp re-attach / lock behaviour", note=SRC_NOTE,
-   text="For generated programs, one labelled cosmetic or semantic edit in the closure of the top-level call: EquivalentCall (both directions) and the real mrp on an existing pipestance must accept cosmetic and refuse semantic edits; further mrp processes started while the first holds _lock must be refused.",
+   text="For generated programs, one labelled cosmetic or semantic edit in the closure of the top-level call: EquivalentCall (both directions) and the real mrp on an existing pipestance must accept cosmetic and refuse semantic edits; further mrp processes started while the first holds _lock must be refused. Also for the read-only re-attach (mrp --inspect) and for a re-pointed wildcard binding.",
    ref="3 C15"),
  "C17": dict(level="exploration", tech="differential monitoring of the real Type.IsValidJson / FilterJson / IsAssignableFrom against an independent reference validator/filter", note=SRC_NOTE,
    text="Random type universes compiled by the real compiler; conforming values and typed single-point near-miss mutants (wrong depth, numbers as strings, floats for ints, extra/missing/duplicate fields, nulls, odd whitespace): filter idempotence and conservativeness, validity after filtering to an assignable type, validation verdicts and componentwise assignability are compared with a reference that shares no code with martian.",
    ref="3 C17"),
  "C19": dict(level="exploration", tech="edit-and-recompile monitoring of the real refactoring package applied the way mro edit applies it", note=SRC_NOTE,
-   text="Every applicable rename/remove edit on every callable and parameter of generated multi-file programs: edited files must compile, call-graph JSON must equal the original modulo the renamed identifier, removals keep nodes / resolved top-level outputs, and rename followed by its inverse restores the compiled program.",
+   text="Every applicable rename/remove edit on every callable and parameter of generated multi-file programs: edited files must compile, call-graph JSON must equal the original modulo the renamed identifier, removals keep nodes / resolved top-level outputs, and rename followed by its inverse restores the compiled program. The skeleton covers wildcard forwarding of struct inputs and outputs used only through nested projections.",
    ref="3 C19"),
 })
 
